@@ -26,7 +26,7 @@ MiscOps == {Misc(<<>>, FALSE)}
 
 \* ---------------- pool A: competition / backtracking / abandoned captures
 PatsA == {"/u/{id}", "/u/{id:\\d+}", "/u/{id:digit}", "/u/5", "/u/{id}/x", "/u/{id}/{p:\\d+}",
-          "/u/{id}/{act}/log", "/u/{-id}/z", "/u/{uid}/x", "/u/{u}/y", "/p/{id:\\d+}.h", "/p-{a}-{b:any}.h", "/p/{-id:\\d+}.h"}
+          "/u/{id}/{act}/log", "/u/{-id}/z", "/u/{uid}/x", "/u/{u}/y", "/p/{id:\\d+}.h", "/p-{a}-{b:any}.h", "/p/{-id:\\d+}.h", "/q/{-k:\\d+|new}/x"}
 HOpsA == {H(p, ms) : p \in PatsA, ms \in {G, P}}
 ROpsA == {Rm(p, ms) : p \in PatsA, ms \in {<<>>, G}}
 COpsA == {Cl(""), Cl("/u/"), Cl("/p"), Cl("/u/{id}/"), Cl("/u/{id}"), Cl("/u/5")}
@@ -39,7 +39,7 @@ ProbesA == <<W("/u/{id}", [id |-> "7q"]), W("/u/{id:\\d+}", [id |-> "77"]), W("/
              W("/u/{id}/x", [id |-> "7q"]), W("/u/{id}/{p:\\d+}", [id |-> "7q", p |-> "88"]),
              W("/u/{id}/{act}/log", [id |-> "7q", act |-> "8w"]), W("/u/{-id}/z", [id |-> "7q"]),
              W("/u/{uid}/x", [uid |-> "7q"]), W("/u/{u}/y", [u |-> "7q"]), W("/p/{id:\\d+}.h", [id |-> "77"]),
-             W("/p-{a}-{b:any}.h", [a |-> "7q", b |-> "8w"]),
+             W("/p-{a}-{b:any}.h", [a |-> "7q", b |-> "8w"]), W("/q/{-k:\\d+|new}/x", [k |-> "77"]), A("/q/77"), A("/q/new/x"), A("/q/new"),
              A("/u/5/7/log"), A("/u/7/log/log"), A("/u/7/8/log/log"), A("/u/7/x/x"), A("/u//x"), A("/u/"), A("/u/5/"), A("/u/55"),
              A("/u/7a"), A("/u/7/x8"), A("/u/7/8"), A("/p/7xh"), A("/p/7.h.h"), A("/p/a.h"), A("/p--8.h"), A("/p-7-8.h-9.h"), A("/p-7-.h"),
              A("/u/7q/z/z"), A("/"), A(""), A("*")>>
@@ -88,7 +88,7 @@ ProbesC == <<W("/posts/author", <<>>), W("/posts/abc", <<>>), W("/posts/{id}/aut
 MethodsC == <<"GET", "HEAD", "POST", "DELETE", "PUT", "OPTIONS", "TRACE", "BOGUS">>
 
 \* ---------------- pool X: Handle / Remove with every kind of method list (C17, C08, C03)
-PatsX == {"/u/{id}/ab", "/u/{id}/ac", "/u/{id}", "/u/{name}", "/x", "/u/{id:\\d+}", "/u/{name}/a", "/u/{id}/", "/u/{name}/"}
+PatsX == {"/u/{id}/ab", "/u/{id}/ac", "/u/{id}", "/u/{name}", "/x", "/u/{id:\\d+}", "/u/{name}/a", "/u/{id}/", "/u/{name}/", "/u/{-n:[a-z]+}"}
 BadPatsX == {"/u/{}", "/u/{a}{b}", "/u/{a}/{a}", "", "/u/{:\\d+}", "/u/{a}/{-a}", "/u/{-a}/{a:\\d+}", "/u/{a:\\d+}{b}", "/u/{a:digit}{b}"}
 ListsX == {G, P, <<"GET", "BOGUS">>, <<"BOGUS", "GET">>, <<"HEAD">>, <<"POST", "OPTIONS">>, <<"TRACE">>, <<"GET", "GET">>, <<"GET", "POST">>, <<"GET", "POST", "GET">>, <<>>}
 HOpsX == {H(p, ms) : p \in PatsX, ms \in ListsX} \cup {H(p, G) : p \in BadPatsX}
@@ -117,14 +117,28 @@ MethodsM == <<"GET", "HEAD", "POST", "OPTIONS", "TRACE", "BOGUS">>
 
 \* ---------------- pool Y: TRACE as an ordinary method (no WithTrace) next to the configured TRACE handler (depth 3, unsampled)
 PatsY == {"/x", "/u/{id}"}
-HOpsY == {H(p, ms) : p \in PatsY, ms \in {<<"TRACE">>, <<"TRACE", "POST">>, G}}
-ROpsY == {Rm(p, ms) : p \in PatsY, ms \in {<<>>, <<"TRACE">>, P, <<"OPTIONS">>}}
+HOpsY == {H(p, ms) : p \in PatsY, ms \in {<<"TRACE">>, <<"TRACE", "POST">>, G, GP}}
+ROpsY == {Rm(p, ms) : p \in PatsY, ms \in {<<>>, <<"TRACE">>, P, <<"OPTIONS">>, G}}
 COpsY == {Cl("")}
 UOpsY == {}
 CfgsY == {Cfg(FALSE), Cfg(TRUE)}
 BasesY == {<<>>}
 ProbesY == <<W("/x", <<>>), W("/u/{id}", [id |-> "7q"]), A("/u/"), A("/zz"), A(""), A("*")>>
 MethodsY == <<"GET", "HEAD", "POST", "OPTIONS", "TRACE", "BOGUS">>
+
+\* ---------------- pool Wd (wide): one pattern with 32 named parameters (more than any context of the test-suite ever held) next to a
+\* narrow one; the battery serves the wide route and then the narrow one through the same pooled request context
+\* (distinct one-character separators keep the split of the path unique, so the resolver stays linear)
+PWide == "/{A}0{B}1{C}2{D}3{E}4{F}5{G}6{H}7{I}8{J}9{K}b{L}c{M}d{N}e{O}f{P}g{Q}h{R}i{S}j{T}k{U}l{V}m{W}n{X}o{Y}p{Z}q{AA}r{AB}s{AC}t{AD}u{AE}w{AF}"
+WideParams == [A |-> "v", B |-> "v", C |-> "v", D |-> "v", E |-> "v", F |-> "v", G |-> "v", H |-> "v", I |-> "v", J |-> "v", K |-> "v", L |-> "v", M |-> "v", N |-> "v", O |-> "v", P |-> "v", Q |-> "v", R |-> "v", S |-> "v", T |-> "v", U |-> "v", V |-> "v", W |-> "v", X |-> "v", Y |-> "v", Z |-> "v", AA |-> "v", AB |-> "v", AC |-> "v", AD |-> "v", AE |-> "v", AF |-> "v"]
+HOpsWd == {H("/w/{x}", G), H(PWide, P)}
+ROpsWd == {Rm(PWide, <<>>)}
+COpsWd == {}
+UOpsWd == {}
+CfgsWd == {Cfg(FALSE)}
+BasesWd == {<<H(PWide, G)>>, <<H(PWide, G), H("/w/{x}", G)>>}
+ProbesWd == <<W(PWide, WideParams), W("/w/{x}", [x |-> "7q"]), A("/w"), W(PWide, WideParams), W("/w/{x}", [x |-> "8w"]), A("*")>>
+MethodsWd == <<"GET", "POST", "OPTIONS">>
 
 \* ---------------- pool R: a surviving node loses all of its five children, one by one (every order, with repeats)
 PatsR == {"/a", "/b", "/c", "/d", "/e", "/a1x", "/a1y"}
